@@ -778,6 +778,88 @@ static bool nontrivial(const Script& s)
    return false;
 }
 
+// ------------------------------------------------------------------ write buffer with a sink that fails once in a while
+//
+// mode wfault (an extension of the property's quantifier: the class tells implementers of writeData() to throw when the data
+// cannot be written).  The sink is all-or-nothing: a writeData() call either takes all bytes or throws and takes none.  The
+// caller repeats a failed append() / flush() until it succeeds.  Demanded: after the closing flush() the sink holds exactly
+// the appended bytes, once, in order; buffered() never counts a byte the sink already has.
+
+struct SinkFailure : std::runtime_error { SinkFailure() : std::runtime_error("sink cannot take the data now") {} };
+
+template <size_t N> class FaultyWriter : public celma::common::WriteBuffer<N>
+{
+public:
+   std::vector<unsigned char> sink;
+   mutable unsigned failIn = 0;        // the failIn-th writeData() call from now fails (0 = never)
+   mutable uint64_t failures = 0;
+private:
+   void writeData(const unsigned char* const data, size_t len) const override
+   {
+      if (failIn && --failIn == 0) { ++failures; throw SinkFailure(); }
+      auto& s = const_cast<std::vector<unsigned char>&>(sink);
+      s.insert(s.end(), data, data + len);
+   }
+};
+
+template <size_t N> static void run_wfault(vh::Rng& r, uint64_t idx)
+{
+   auto* wb = new FaultyWriter<N>();
+   uint64_t app = 0;
+   const unsigned len = 4 + (unsigned)r.below(40);
+   std::string hist;
+   bool bad = false;
+   auto attempt = [&](auto&& op, const char* what, unsigned n) {
+      char b[40];
+      snprintf(b, sizeof b, " %s(%u)", what, n);
+      hist += b;
+      for (unsigned tries = 0; tries < 4; ++tries)
+      {
+         if (r.chance(1, 4)) wb->failIn = 1 + (unsigned)r.below(2);
+         try { op(); wb->failIn = 0; return; }
+         catch (const SinkFailure&) { hist += "!"; fs.add("wfault.sink_failures"); }
+         wb->failIn = 0;
+      }
+      op();      // the sink is healthy now
+   };
+   for (unsigned i = 0; i < len && !bad; ++i)
+   {
+      if (r.chance(1, 6)) attempt([&] { wb->flush(); }, "flush", 0);
+      else
+      {
+         const unsigned n = (unsigned)r.below(N + 3);
+         std::vector<unsigned char> src(n);
+         for (unsigned j = 0; j < n; ++j) src[j] = pat(app + j);
+         attempt([&] { wb->append(src.data(), n); }, "append", n);
+         app += n;
+      }
+      fs.add("wfault.requests");
+      // the sink plus the buffer hold exactly what was appended so far
+      if (wb->sink.size() + wb->buffered() != app)
+      {
+         char b[200];
+         snprintf(b, sizeof b, "sink %zu + buffered %zu != appended %" PRIu64, wb->sink.size(), (size_t)wb->buffered(), app);
+         out.viol("wfault|bytes lost or duplicated after a failed writeData()", std::string(b) + " | N=" + std::to_string(N) + " history:" + hist);
+         bad = true;
+      }
+   }
+   if (!bad)
+   {
+      wb->failIn = 0;
+      wb->flush();
+      bool same = wb->sink.size() == app;
+      for (uint64_t j = 0; same && j < app; ++j) same = wb->sink[j] == pat(j);
+      if (!same)
+         out.viol("wfault|sink content differs from the appended bytes", "sink holds " + std::to_string(wb->sink.size()) + " bytes, appended " +
+                  std::to_string(app) + " | N=" + std::to_string(N) + " history:" + hist);
+   }
+   if (wb->failures) fs.add("wfault.histories_with_a_failing_sink");
+   fs.add("cases");
+   out.distinct(vh::hash_str(hist, N));
+   if (out.wantSample() && idx % 97 == 5) out.sample("wfault N=" + std::to_string(N) + hist.substr(0, 200));
+   delete wb;
+}
+
 // ------------------------------------------------------------------ main
 
 int main(int argc, char** argv)
@@ -788,6 +870,30 @@ int main(int argc, char** argv)
    const uint64_t end = a.start + a.count;
    const unsigned seqlen = (unsigned)a.getu("seqlen", 6), maxn = (unsigned)a.getu("maxn", 4);
    const unsigned nreq = (unsigned)a.getu("nreq", 1000);
+   if (a.mode == "wfault")
+   {
+      for (uint64_t i = a.start; i < end; ++i)
+      {
+         out.curIdx = i;
+         vh::Rng r(vh::mix(a.seed, vh::mix(vh::hash_str("wfault"), i)));
+         snprintf(dbuf, sizeof dbuf, "wfault idx=%" PRIu64, i);
+         prog.set(i, dbuf);
+         switch (i % 8)
+         {
+         case 0: run_wfault<1>(r, i); break;
+         case 1: run_wfault<2>(r, i); break;
+         case 2: run_wfault<3>(r, i); break;
+         case 3: run_wfault<4>(r, i); break;
+         case 4: run_wfault<5>(r, i); break;
+         case 5: run_wfault<8>(r, i); break;
+         case 6: run_wfault<16>(r, i); break;
+         default: run_wfault<64>(r, i); break;
+         }
+      }
+      fs.flush();
+      out.finish(a);
+      return 0;
+   }
    const bool exh = a.mode == "exh";
    if (!exh && a.mode != "rand") { fprintf(stderr, "unknown mode %s\n", a.mode.c_str()); return 3; }
    if (exh && (maxn < 1 || maxn > 5 || seqlen < 1 || seqlen > 9)) { fprintf(stderr, "bad --maxn/--seqlen\n"); return 3; }
